@@ -67,12 +67,12 @@ func propSpecs() map[string]*PropSpec {
 	})
 	add(&PropSpec{
 		ID: "C10", Title: "source positions in tokens and syntax trees are exact",
-		Quick:    append(tokRuns("H_C10", 5, 0), seeds("H_C10seed", 1)...),
-		Thorough: append(append(tokRuns("H_C10", 6, 0), seeds("H_C10seed", 1)...), seeds("H_C10seed", 2)...),
-		Covers:   []string{"accepted", "rejected", "spans-checked"},
-		Bounds: map[string]string{"quick": "all accepted token sequences of length <= 5 over the full vocabulary; 12 seed programs with one arbitrary corruption",
-			"thorough": "length <= 6; seeds with one and two corruptions"},
-		Outside: []string{"multi-byte layout between tokens inside token slots (token spans themselves are C09's subject)"},
+		Quick:    append(append(append(tokRuns("H_C10", 5, 0), seeds("H_C10seed", 1)...), tokRuns("H_C10err", 4, 0)...), seeds("H_C10errseed", 1)...),
+		Thorough: append(append(append(append(tokRuns("H_C10", 6, 0), seeds("H_C10seed", 1)...), seeds("H_C10seed", 2)...), tokRuns("H_C10err", 5, 0)...), seeds("H_C10errseed", 2)...),
+		Covers:   []string{"accepted", "rejected", "spans-checked", "partial-tree", "position-checked", "compile-error-message"},
+		Bounds: map[string]string{"quick": "success part: all accepted token sequences of length <= 5 over the full vocabulary and 12 seed programs with one arbitrary corruption; failure part: all rejected token sequences of length <= 4 and the rejected corruptions of the seeds: every span of the partial tree (fields and Span() of every node) and every line:column prefix of the parse and compile error messages",
+			"thorough": "success <= 6, failure <= 5, seeds with one and two corruptions"},
+		Outside: []string{"multi-byte layout between tokens inside token slots (token spans themselves are C09's subject)", "error messages for byte-level garbage (their texts quote symbolic runes and are opaque to the engine)"},
 		Stubs:   []string{tokStub},
 	})
 	add(&PropSpec{
